@@ -717,7 +717,7 @@ package decoder
 // The recorded length is below the buffer length, and the distance between the two is bounded: that distance is
 // what reset, the in-place edits of the string scanner and the cursor steps all leave unchanged, so it is the
 // form in which 'length < len(buf)' is inductive (a lower bound on the length itself is not: reset subtracts the cursor).
-//@ spec wfStream(s) := s != nil && 0 <= s.cursor && s.cursor < len(s.buf) && s.length < len(s.buf) && len(s.buf) - s.length <= 4611686018427387903 && len(s.buf) <= cap(s.buf) && len(s.buf) <= 4611686018427387903 && 0 <= s.bufSize && s.bufSize <= 4611686018427387903 && s.buf[len(s.buf) - 1] == 0 && region(ptrOf(s.buf), len(s.buf))
+//@ spec wfStream(s) := s != nil && 0 <= s.cursor && s.cursor < len(s.buf) && s.length < len(s.buf) && len(s.buf) - s.length <= 4611686018427387903 && len(s.buf) <= cap(s.buf) && len(s.buf) <= 4611686018427387903 && 0 <= s.bufSize && s.bufSize <= 4611686018427387903 && s.buf[len(s.buf) - 1] == 0 && region(ptrOf(s.buf), cap(s.buf))
 
 //@ func io.Reader.Read(r, p) (n, err)
 //@   props C09 C06
@@ -1082,39 +1082,39 @@ package decoder
 //@   requires region(p, 16)
 //@   assigns class T:json.Number.ptr, class T:int.len, class T:interface{}.typ, class T:interface{}.data
 //@ func compileFloat32$1(p, v) ()
-//@   props C07 C05
+//@   props C07 C06
 //@   requires region(p, 4)
 //@   assigns class T:float32
 //@ func compileFloat64$1(p, v) ()
-//@   props C07 C05
+//@   props C07 C06
 //@   requires region(p, 8)
 //@   assigns class T:float64
 //@ func compileString$1(p, v) ()
-//@   props C07 C05
+//@   props C07 C06
 //@   requires region(p, 16)
 //@   assigns class T:json.Number.ptr, class T:int.len
 //@ func newEmptyInterfaceDecoder$1(p, v) ()
-//@   props C07 C05
+//@   props C07 C06
 //@   requires region(p, 16)
 //@   assigns class T:interface{}.typ, class T:interface{}.data
 //@ func newEmptyInterfaceDecoder$2(p, v) ()
-//@   props C07 C05
+//@   props C07 C06
 //@   requires region(p, 16)
 //@   assigns class T:interface{}.typ, class T:interface{}.data
 //@ func newInterfaceDecoder$1(p, v) ()
-//@   props C07 C05
+//@   props C07 C06
 //@   requires region(p, 16)
 //@   assigns class T:interface{}.typ, class T:interface{}.data
 //@ func newInterfaceDecoder$2(p, v) ()
-//@   props C07 C05
+//@   props C07 C06
 //@   requires region(p, 16)
 //@   assigns class T:interface{}.typ, class T:interface{}.data
 //@ func NewPathDecoder$1(p, v) ()
-//@   props C07 C05
+//@   props C07 C06
 //@   requires region(p, 16)
 //@   assigns class T:interface{}.typ, class T:interface{}.data
 //@ func NewPathDecoder$2(p, v) ()
-//@   props C07 C05
+//@   props C07 C06
 //@   requires region(p, 16)
 //@   assigns class T:interface{}.typ, class T:interface{}.data
 
@@ -1374,6 +1374,91 @@ package decoder
 //@   ensures sameOrNewArray(s.buf)
 //@   assigns all
 
+// The slice decoder of stream mode: same frame as in buffer mode. Element data goes only into the scratch
+// array it obtained (and regrows), each element handed to the element decoder lies inside the current array,
+// and the caller's slice header (24 bytes at p) is the only part of the destination object it writes.
+//@ func (*sliceDecoder).DecodeStream(d, s, depth, p) (err)
+//@   props C07 C06 C09
+//@   requires d != nil && wfStream(s)
+//@   requires d.size >= 1 && d.size < 1048576 && d.size == rsize(d.elemType) && (d.isElemPointerType ==> d.size == 8)
+//@   requires dsize(dataOf(d.valueDecoder)) == d.size && apartS(p, 24, s)
+//@   requires p != nil && region(p, 24)
+//@   requires cast(p, sliceHeader).len >= 0 && cast(p, sliceHeader).len <= cast(p, sliceHeader).cap && cast(p, sliceHeader).cap < 70368744177664 && region(cast(p, sliceHeader).data, cast(p, sliceHeader).cap * d.size)
+// the array the destination slice already has is an object of the caller: no part of the window
+//@   requires apartS(cast(p, sliceHeader).data, cast(p, sliceHeader).cap * d.size, s)
+//@   callassume typedmemmove: rsize(sliceType) == 24
+// distinct allocations: the pooled scratch array is neither the window nor the caller's slice header
+//@   postassume newSlice: apartS(result.data, result.cap * d.size, s) && (result.data + result.cap * d.size <= p || p + 24 <= result.data)
+//@   callassert[C07] DecodeStream: within(arg3, d.size, data, capacity * d.size)
+// decoders are immutable while decoding; resource bound: fewer than 2^32 elements in one array of a stream
+//@   postassume DecodeStream: d.size == old(d.size) && d.elemType == old(d.elemType) && d.isElemPointerType == old(d.isElemPointerType) && d.valueDecoder == old(d.valueDecoder) && slice.cap == initcap && hdrSame(p) && idx < 4294967296
+//@   postassume newSlice: result.cap == initcap && hdrSame(p)
+//@   ensures err == nil ==> wfStream(s)
+//@   ensures sameOrNewArray(s.buf)
+//@   assigns all
+//@   loop 1: invariant wfStream(s) && apartS(p, 24, s)
+//@   loop 1: invariant sameOrNewArray(s.buf)
+//@   loop 1: invariant hdrSame(p)
+//@   loop 1: invariant apartS(cast(p, sliceHeader).data, cast(p, sliceHeader).cap * d.size, s)
+//@   loop 1: invariant d.size == old(d.size) && d.elemType == old(d.elemType) && d.isElemPointerType == old(d.isElemPointerType) && d.valueDecoder == old(d.valueDecoder)
+//@   loop 2: invariant wfStream(s) && apartS(p, 24, s) && 0 <= idx && idx <= 4294967296
+//@   loop 2: invariant sameOrNewArray(s.buf)
+//@   loop 2: invariant 1 <= capacity && idx <= capacity && capacity <= slice.cap + 2 * idx && data != nil && slice != nil && slice.cap == initcap
+//@   loop 2: invariant region(data, capacity * d.size) && data + capacity * d.size <= 140737488355328
+//@   loop 2: invariant hdrSame(p)
+//@   loop 2: invariant apartS(cast(p, sliceHeader).data, cast(p, sliceHeader).cap * d.size, s)
+//@   loop 2: invariant apartS(data, capacity * d.size, s)
+//@   loop 2: invariant data + capacity * d.size <= p || p + 24 <= data
+//@   loop 2: invariant d.size == old(d.size) && d.elemType == old(d.elemType) && d.isElemPointerType == old(d.isElemPointerType) && d.valueDecoder == old(d.valueDecoder)
+//@   loop 3: invariant wfStream(s) && apartS(p, 24, s) && 0 <= idx && idx <= 4294967296
+//@   loop 3: invariant sameOrNewArray(s.buf)
+//@   loop 3: invariant 1 <= capacity && idx < capacity && capacity <= slice.cap + 2 * idx && data != nil && slice != nil && slice.cap == initcap
+//@   loop 3: invariant region(data, capacity * d.size) && data + capacity * d.size <= 140737488355328
+//@   loop 3: invariant hdrSame(p)
+//@   loop 3: invariant apartS(cast(p, sliceHeader).data, cast(p, sliceHeader).cap * d.size, s)
+//@   loop 3: invariant apartS(data, capacity * d.size, s)
+//@   loop 3: invariant data + capacity * d.size <= p || p + 24 <= data
+//@   loop 3: invariant d.size == old(d.size) && d.elemType == old(d.elemType) && d.isElemPointerType == old(d.isElemPointerType) && d.valueDecoder == old(d.valueDecoder)
+
+// A map destination in stream mode is one pointer word, as in buffer mode: keys and values are decoded into
+// fresh objects and handed to the runtime; the only write to the destination is the map pointer itself.
+//@ func (*mapDecoder).DecodeStream(d, s, depth, p) (err)
+//@   props C07 C06 C09
+//@   requires d != nil && d.keyDecoder != nil && d.valueDecoder != nil && wfStream(s)
+//@   requires p != nil && region(p, 8) && apartS(p, 8, s)
+//@   requires 0 <= dsize(dataOf(d.keyDecoder)) && dsize(dataOf(d.keyDecoder)) <= rsize(d.keyType) && 0 <= dsize(dataOf(d.valueDecoder)) && dsize(dataOf(d.valueDecoder)) <= rsize(d.valueType)
+//@   ensures err == nil ==> wfStream(s)
+//@   ensures sameOrNewArray(s.buf)
+//@   assigns all
+//@   postassume DecodeStream: d.keyDecoder == old(d.keyDecoder) && d.valueDecoder == old(d.valueDecoder) && d.keyType == old(d.keyType) && d.valueType == old(d.valueType)
+//@   loop 1: invariant wfStream(s) && apartS(p, 8, s)
+//@   loop 1: invariant sameOrNewArray(s.buf)
+//@   loop 1: invariant d.keyDecoder == old(d.keyDecoder) && d.valueDecoder == old(d.valueDecoder) && d.keyType == old(d.keyType) && d.valueType == old(d.valueType)
+
+// The function stored in structDecoder.keyStreamDecoder is decodeKeyStream, decodeKeyByBitmapUint8Stream or
+// ...Uint16Stream (tryOptimize is the only writer). Assumed of it, as of its buffer-mode twin: a field set it
+// returns is one of this decoder's, whose offset and decoder fit inside the struct.
+//@ func fieldfunc:structDecoder.keyStreamDecoder(d, s) (field, key, err)
+//@   props C07 C06 C15 C09
+//@   trusted field contract of the stream key decoders: the offsets of the field sets come from tryOptimize / compileStruct (bounded stand-ins only)
+//@   requires d != nil && wfStream(s)
+//@   ensures err == nil ==> wfStream(s)
+//@   ensures err == nil && field != nil ==> field.dec != nil && 0 <= field.offset && field.offset + dsize(dataOf(field.dec)) <= ssize(d) && dsize(dataOf(field.dec)) >= 0
+//@   ensures sameOrNewArray(s.buf)
+//@   assigns M, Stream.buf, Stream.bufSize, Stream.length, Stream.cursor, Stream.filledBuffer, Stream.allRead, Stream.readErr, Stream.offset, fresh
+
+// struct decoding in stream mode: every destination handed to a field decoder lies inside the struct
+//@ func (*structDecoder).DecodeStream(d, s, depth, p) (err)
+//@   props C07 C06 C09
+//@   requires d != nil && wfStream(s) && s.Option != nil
+//@   requires ssize(d) >= 0 && region(p, ssize(d)) && apartS(p, ssize(d), s)
+//@   ensures err == nil ==> wfStream(s)
+//@   ensures sameOrNewArray(s.buf)
+//@   callassert[C07] DecodeStream: arg3 >= p && arg3 + dsize(dataOf(arg0)) <= p + ssize(d)
+//@   assigns all
+//@   loop 1: invariant wfStream(s) && apartS(p, ssize(d), s)
+//@   loop 1: invariant sameOrNewArray(s.buf)
+
 // ---------------------------------------------------------------- stream helpers: safety and window invariant (C06, C09)
 //@ func (*Stream).skipWhiteSpace(s) (c)
 //@   props C06 C09
@@ -1388,7 +1473,7 @@ package decoder
 //@ func (*Stream).equalChar(s, c) (eq)
 //@   props C06 C09
 //@   requires wfStream(s)
-//@   ensures wfStream(s) && s.cursor == old(s.cursor)
+//@   ensures wfStream(s) && s.cursor == old(s.cursor) && (eq <==> s.buf[s.cursor] == c)
 // the window is the old array (or a part of it) or one allocated here: what was apart from it stays apart
 //@   ensures sameOrNewArray(s.buf)
 //@   assigns M, Stream.buf, Stream.bufSize, Stream.length, Stream.cursor, Stream.filledBuffer, Stream.allRead, Stream.readErr, fresh
